@@ -125,9 +125,11 @@ type grammar struct {
 	local   func(*rapid.T) string
 	rev     func(*rapid.T) string
 	trail   func(*rapid.T) string
-	swapTag bool                // a suffix tag may be replaced by any other tag of the pool
-	fix     func(*Ver)          // re-establishes cross-field constraints after a mutation
-	pairFix func(a Ver, b *Ver) // canonical legs: constraints between the versions of a pair
+	swapTag bool // a suffix tag may be replaced by any other tag of the pool
+	// fields whose ASCII letters may change case without leaving the grammar
+	caseTag, caseLocal, caseRev bool
+	fix                         func(*Ver)          // re-establishes cross-field constraints after a mutation
+	pairFix                     func(a Ver, b *Ver) // canonical legs: constraints between the versions of a pair
 }
 
 func str(f func(*rapid.T) string, t *rapid.T) string {
@@ -285,8 +287,8 @@ func semverLead(eco string) func(*rapid.T) string {
 func semverValid(eco string) *grammar {
 	k := numKind{zeros: false, big: true}
 	return &grammar{
-		swapTag: true,
-		lead:    semverLead(eco), minNums: 3, maxNums: 3, sep: dot,
+		swapTag: true, caseTag: true, caseLocal: true,
+		lead: semverLead(eco), minNums: 3, maxNums: 3, sep: dot,
 		num: func(t *rapid.T, _ int) string { return genNum(t, k) },
 		sufs: func(t *rapid.T) []Suf {
 			return semverPre(t, func(t *rapid.T) string { return genNum(t, k) }, semverIDs)
@@ -301,8 +303,8 @@ func semverCanon(eco string) *grammar {
 		lead = func(*rapid.T) string { return "v" }
 	}
 	return &grammar{
-		swapTag: true,
-		lead:    lead, minNums: 3, maxNums: 3, sep: dot,
+		swapTag: true, caseTag: true, caseLocal: true,
+		lead: lead, minNums: 3, maxNums: 3, sep: dot,
 		num:   func(t *rapid.T, _ int) string { return genCanonNum(t) },
 		sufs:  func(t *rapid.T) []Suf { return semverPre(t, genCanonNum, semverCanonIDs) },
 		local: semverCanonBuild,
@@ -314,7 +316,7 @@ func semverCanon(eco string) *grammar {
 func nugetValid() *grammar {
 	k := numKind{zeros: true, big: true}
 	return &grammar{
-		swapTag: true,
+		swapTag: true, caseTag: true, caseLocal: true,
 		minNums: 2, maxNums: 4, sep: dot,
 		num: func(t *rapid.T, _ int) string { return genNum(t, k) },
 		sufs: func(t *rapid.T) []Suf {
@@ -326,7 +328,7 @@ func nugetValid() *grammar {
 
 func nugetCanon() *grammar {
 	return &grammar{
-		swapTag: true,
+		swapTag: true, caseTag: true, caseLocal: true,
 		minNums: 2, maxNums: 4, sep: dot,
 		num:   func(t *rapid.T, _ int) string { return genCanonNum(t) },
 		sufs:  func(t *rapid.T) []Suf { return semverPre(t, genCanonNum, semverCanonIDs) },
@@ -343,6 +345,7 @@ func pypiValid() *grammar {
 	k := numKind{zeros: true, big: true}
 	seps := []string{"", "", ".", "-", "_"}
 	return &grammar{
+		caseTag: true, caseLocal: true,
 		lead: func(t *rapid.T) string {
 			return rapid.SampledFrom([]string{"", "", "", "", "", "v", "V", " "}).Draw(t, "lead")
 		},
@@ -395,6 +398,7 @@ func pypiValid() *grammar {
 
 func pypiCanon() *grammar {
 	return &grammar{
+		caseTag: true, caseLocal: true,
 		epoch:   func(t *rapid.T) string { return pick(t, []string{"", "", "", "", "1!", "2!", "10!"}) },
 		minNums: 1, maxNums: 4, sep: dot,
 		num: func(t *rapid.T, _ int) string { return genCanonNum(t) },
@@ -438,7 +442,7 @@ var mavenTags = []string{"alpha", "beta", "milestone", "rc", "cr", "snapshot", "
 func mavenValid() *grammar {
 	k := numKind{zeros: true, big: true}
 	return &grammar{
-		swapTag: true,
+		swapTag: true, caseTag: true,
 		minNums: 1, maxNums: 4, sep: dot,
 		num: func(t *rapid.T, _ int) string { return genNum(t, k) },
 		sufs: func(t *rapid.T) []Suf {
@@ -473,7 +477,7 @@ var mavenCanonTags = []string{"alpha", "beta", "milestone", "rc", "cr", "snapsho
 // each other, e.g. on "0-alpha" vs "0.sp", and deps.dev does not normalise "00".)
 func mavenCanon() *grammar {
 	return &grammar{
-		swapTag: true,
+		swapTag: true, caseTag: true,
 		minNums: 1, maxNums: 4, sep: dot,
 		num: func(t *rapid.T, _ int) string { return genCanonNum(t) },
 		sufs: func(t *rapid.T) []Suf {
@@ -508,7 +512,7 @@ var gemTags = []string{"a", "b", "rc", "pre", "alpha", "beta", "RC", "x", "z", "
 func rubygemsValid() *grammar {
 	k := numKind{zeros: true, big: true}
 	return &grammar{
-		swapTag: true,
+		swapTag: true, caseTag: true,
 		minNums: 1, maxNums: 5, sep: dot,
 		num: func(t *rapid.T, _ int) string { return genNum(t, k) },
 		sufs: func(t *rapid.T) []Suf {
@@ -531,7 +535,7 @@ func rubygemsValid() *grammar {
 
 func rubygemsCanon() *grammar {
 	return &grammar{
-		swapTag: true,
+		swapTag: true, caseTag: true,
 		minNums: 1, maxNums: 5, sep: dot,
 		num: func(t *rapid.T, _ int) string { return genCanonNum(t) },
 		sufs: func(t *rapid.T) []Suf {
@@ -552,6 +556,7 @@ func rubygemsCanon() *grammar {
 func packagistValid() *grammar {
 	k := numKind{zeros: true, big: true}
 	return &grammar{
+		caseTag: true,
 		lead:    func(t *rapid.T) string { return pick(t, []string{"", "", "", "v"}) },
 		minNums: 1, maxNums: 4, sep: dot,
 		num: func(t *rapid.T, _ int) string { return genNum(t, k) },
@@ -595,7 +600,7 @@ var debRevs = []string{"1", "0", "2", "10", "0ubuntu1", "1ubuntu2", "1ubuntu2.1"
 func debianValid() *grammar {
 	k := numKind{zeros: true, big: true}
 	return &grammar{
-		swapTag: true,
+		swapTag: true, caseTag: true, caseRev: true,
 		epoch:   func(t *rapid.T) string { return pick(t, []string{"", "", "", "", "0:", "1:", "2:", "10:", "01:"}) },
 		minNums: 1, maxNums: 4, sep: dot,
 		num: func(t *rapid.T, _ int) string { return genNum(t, k) },
@@ -638,7 +643,7 @@ var rpmRels = []string{"1", "2", "0", "10", "01", "1.el8", "1.el8_3", "1.el8_10"
 func redhatValid() *grammar {
 	k := numKind{zeros: true, big: true}
 	return &grammar{
-		swapTag: true,
+		swapTag: true, caseTag: true, caseRev: true,
 		epoch:   func(t *rapid.T) string { return pick(t, []string{"", "", "", "", "0:", "1:", "2:", "10:"}) },
 		minNums: 1, maxNums: 4, sep: dot,
 		num: func(t *rapid.T, _ int) string { return genNum(t, k) },
@@ -889,6 +894,97 @@ func (g *grammar) mutateTail(t *rapid.T, v0 Ver) Ver {
 	return v
 }
 
+func flipCase(c byte) byte {
+	switch {
+	case c >= 'a' && c <= 'z':
+		return c - 32
+	case c >= 'A' && c <= 'Z':
+		return c + 32
+	}
+	return c
+}
+
+// recase changes the case of the letters of s: mode 0 flips every letter, 1 flips one
+// letter, 2 upper-cases, 3 lower-cases.
+func recase(t *rapid.T, s string, mode int) string {
+	b := []byte(s)
+	var letters []int
+	for i, c := range b {
+		if isAlpha(c) {
+			letters = append(letters, i)
+		}
+	}
+	if len(letters) == 0 {
+		return s
+	}
+	switch mode {
+	case 0:
+		for _, i := range letters {
+			b[i] = flipCase(b[i])
+		}
+	case 1:
+		i := letters[upTo(t, 0, len(letters)-1)]
+		b[i] = flipCase(b[i])
+	case 2:
+		return strings.ToUpper(s)
+	case 3:
+		return strings.ToLower(s)
+	}
+	return string(b)
+}
+
+func (g *grammar) hasCase() bool { return g.caseTag || g.caseLocal || g.caseRev }
+
+// caseVariant derives a version that differs from v only in the ASCII case of letters
+// (one field or all fields the grammar allows); it returns v itself when v has no letter
+// in such a field.
+func (g *grammar) caseVariant(t *rapid.T, v0 Ver) Ver {
+	v := v0.clone()
+	type field struct{ p *string }
+	var fs []field
+	if g.caseTag {
+		for i := range v.Sufs {
+			if strings.ContainsFunc(v.Sufs[i].Tag, func(r rune) bool { return r < 128 && isAlpha(byte(r)) }) {
+				fs = append(fs, field{&v.Sufs[i].Tag})
+			}
+		}
+	}
+	hasAlpha := func(s string) bool {
+		for i := 0; i < len(s); i++ {
+			if isAlpha(s[i]) {
+				return true
+			}
+		}
+		return false
+	}
+	if g.caseLocal && hasAlpha(v.Local) {
+		fs = append(fs, field{&v.Local})
+	}
+	if g.caseRev && hasAlpha(v.Rev) {
+		fs = append(fs, field{&v.Rev})
+	}
+	if len(fs) == 0 {
+		return v
+	}
+	mode := upTo(t, 0, 3)
+	if oneIn(t, 2) {
+		f := fs[upTo(t, 0, len(fs)-1)]
+		*f.p = recase(t, *f.p, mode)
+	} else {
+		for _, f := range fs {
+			*f.p = recase(t, *f.p, mode)
+		}
+	}
+	if v.String() == v0.String() { // e.g. lower-casing a lower-case tag: flip instead
+		f := fs[upTo(t, 0, len(fs)-1)]
+		*f.p = recase(t, *f.p, 0)
+	}
+	if g.fix != nil {
+		g.fix(&v)
+	}
+	return v
+}
+
 // GenValidTriple draws three grammar-valid versions of the ecosystem, biased to share
 // prefixes: most triples are one base version and two tail variants of it (or of each
 // other), the rest are mutations anywhere or independent versions.
@@ -896,7 +992,18 @@ func GenValidTriple(t *rapid.T, eco string) (string, string, string) {
 	g := validGrammar(eco)
 	a := g.gen(t)
 	var b, c Ver
-	if upTo(t, 0, 3) != 0 {
+	if g.hasCase() && oneIn(t, 6) {
+		// b spells a with other letter case, c is a neighbour of one of them
+		b = g.caseVariant(t, a)
+		switch upTo(t, 0, 3) {
+		case 0:
+			c = g.mutateTail(t, b)
+		case 1:
+			c = g.mutate(t, a)
+		default:
+			c = g.mutateTail(t, a)
+		}
+	} else if upTo(t, 0, 3) != 0 {
 		b = g.mutateTail(t, a)
 		if oneIn(t, 2) {
 			c = g.mutateTail(t, a)
@@ -925,10 +1032,12 @@ func GenCanonPair(t *rapid.T, eco string) (string, string) {
 	g := canonGrammar(eco)
 	a := g.gen(t)
 	var b Ver
-	switch upTo(t, 0, 7) {
-	case 0:
+	switch k := upTo(t, 0, 8); {
+	case k == 8 && g.hasCase():
+		b = g.caseVariant(t, a)
+	case k == 0:
 		b = g.gen(t)
-	case 1, 2, 3:
+	case k <= 3:
 		b = g.mutate(t, a)
 	default:
 		b = g.mutateTail(t, a)
